@@ -28,7 +28,7 @@ ASSUMPTIONS = ['whether the callee name is looked up before or after its argumen
 REAL = ['smartquery.*']
 STUB = ['host probes t / boom (scripted, with a fault plan)']
 REACH_PROBES = ('lazy_and', 'lazy_or', 'if', 'probe_raise_fired', 'slice', 'dict_literal', 'setitem', 'setitemop',
-                'short', 'lambda_body_probe', 'literal_leaf_next_to_lazy', 'call_args', 'del', 'lamcall', 'undefined_callee', 'same_operand_twice', 'lazy_right_changes_left')
+                'short', 'lambda_body_probe', 'literal_leaf_next_to_lazy', 'call_args', 'del', 'lamcall', 'undefined_callee', 'same_operand_twice', 'lazy_right_changes_left', 'nested_lambda_calls')
 
 TRUTHY = {'num': [['num', '1'], ['num', '2.5'], ['neg', ['num', '3']]], 'str': [['str', 'a'], ['str', '0']],
           'bool': [['bool', True]], 'list': [['list', [['num', '1']]], ['list', [['list', []]]]], 'none': [['num', '7']]}
@@ -169,7 +169,7 @@ class Shape:
 
     def slice_(self, c, d):
         r = self.r
-        shape = r.choice(lang.SLICE_SHAPES)
+        shape = r.choice(lang.SLICE_SHAPES + (('::s', '::s', ':b:', 'a::') if self.in_lambda else ()))
         self.kinds.add('slice')
         a = b = None
         if shape != ':':
@@ -200,7 +200,18 @@ class Shape:
             seq = self.e('list', d) if r.random() < 0.4 else ['list', [self.leaf('num') for _ in range(r.randint(2, 3))]]
             self.in_lambda += 1
             try:
-                if r.random() < 0.5:
+                x = r.random()
+                if x < 0.2:
+                    # a lambda call inside a lambda call: the probes of the inner body run (and fail) two levels deep
+                    self.kinds.add('nested_lambda_calls')
+                    inner = ['lambda', ['w'], ['bin', r.choice(['+', '*']), ['name', 'w'], self.leaf('num')] if r.random() < 0.6 else self.leaf('num')]
+                    body = ['call', r.choice(['map', 'filter', 'map']), [['list', [self.leaf('num'), ['name', 'v']]], inner], 'plain']
+                elif x < 0.32:
+                    # a slice whose only bound expression is the step (or stop): evaluated anew for every element
+                    self.kinds.add('slice')
+                    shape = r.choice(['::s', '::s', ':b:', 'a::', ':b'])
+                    body = ['slice', ['name', 'L'], shape, self.leaf('num'), None]
+                elif x < 0.6:
                     body = ['bin', r.choice(['+', '*', '-']), ['name', 'v'], self.e('num', min(d, 2))]
                 else:
                     body = self.e(r.choice(['num', 'list', 'list', 'str', 'bool']), max(1, min(d, 2)))
